@@ -30,7 +30,9 @@ every interleaving of starts and finishes):
       a completed acquire is accepted.  The interpretation counts the same thing: cancelled at the acquisition, no run
       may release (`sim:release-held`).
 * R3  `_num_concurrent_runs` is written only by `Workflow.__init__`, with the unmodified
-      `num_concurrent_runs` argument.
+      `num_concurrent_runs` argument.  Anti-vacuity floor: the acquisition helper consumes that very field in both of its
+      roles (decides bounded/unbounded on every path to the acquisition; sizes the created semaphore) -- counted by
+      dependence, not by read sites.
 
 Not decided: "every started run eventually executes" beyond release-on-every-exit (FIFO fairness of
 asyncio.Semaphore is trusted); runtimes other than BasicRuntime (an observation lists other
@@ -43,7 +45,7 @@ import ast
 from pathlib import Path
 
 from ..absint import Raised, Record, Unsupported
-from ..astx import attr_writes, call_name, calls_named, dotted, enclosing_stmt, expand, facts_at, last
+from ..astx import attr_writes, call_name, calls_named, dep_slice, dotted, enclosing_stmt, expand, facts_at, last
 from ..cfg import CFG, exprs_in_node
 from ..index import AnchorError, FuncNode, _set_parents, ancestors, enclosing_function, parent, qualname_of, walk_shallow
 from ..selftest import Twin
@@ -61,7 +63,9 @@ EXPLANATION = (
     "entered semaphore is pinned by a local (WeakValueDictionary); every `<sem>.release()` is dominated by a completed `<sem>.acquire()` of the same semaphore on the "
     "helper's CFG including the exception/cancellation edges of the acquiring await (an acquire inside the `try` whose `finally`/handler releases gives a permit back "
     "that a run cancelled while queued never held: the limit grows by one per cancellation), also as interpreted: cancelled at the acquisition, a run releases nothing "
-    "(planted forms in fixtures/c30/planted_release.py are analysed on every run). R3: `_num_concurrent_runs` has exactly one writer, Workflow.__init__, storing the argument unchanged. "
+    "(planted forms in fixtures/c30/planted_release.py are analysed on every run). R3: `_num_concurrent_runs` has exactly one writer, Workflow.__init__, storing the argument unchanged; that this is the field the runtime consumes is "
+    "established by role, on the helper-inlined view and by dependence through locals (floor 2): a branch test guarding every path to the acquisition depends on it, and the size of the "
+    "Semaphore the helper creates depends on it. "
     "Not decided: semaphore fairness (trusted); other runtimes (observation)."
 )
 TRUSTED = ["CPython ast", "asyncio.Semaphore semantics (counter, FIFO wake-up)", "contextlib.asynccontextmanager", "id() is unique among live objects", "Workflow instances hash/compare by identity (no __eq__/__hash__ override)"]
@@ -77,6 +81,10 @@ TABLE = "_max_concurrent_runs"
 
 def run(chk) -> None:
     repo = chk.repo
+    # private helpers of plugins/basic.py that this module does not name (in particular ones a refactoring extracts from the
+    # acquisition helper) are folded back into their callers first; a no-op when the driver has already done it
+    from ._engine import inlined_view
+    chk.extra["helpers_inlined"] = inlined_view(repo, BASIC, __file__)
     mb = repo.module(BASIC)
     mh, helper = repo.func(f"{BASIC}:BasicRuntime.{HELPER}")
     mr, runwf = repo.func(f"{BASIC}:BasicRuntime.run_workflow")
@@ -189,8 +197,13 @@ def run(chk) -> None:
             reason = f"the stored limit is `{ast.unparse(val)[:60] if val is not None else kind}`, not the `{init_param}` argument"
         chk.ob("C30.R3", "the configured limit reaches the runtime unchanged: `_num_concurrent_runs` is written only by Workflow.__init__ with the `num_concurrent_runs` argument",
                ok, m=mod, node=node, fn=fn, instance=f"limit-writer:{qualname_of(fn) if fn else 'module'}", reason=reason)
-    readers = sum(1 for mod in repo.by_rel.values() if LIMIT_FIELD in mod.src for n in ast.walk(mod.tree) if isinstance(n, ast.Attribute) and n.attr == LIMIT_FIELD and isinstance(n.ctx, ast.Load))
-    chk.floor("C30.R3", f"readers of `{LIMIT_FIELD}`", readers, 2)
+    # The field whose writers were just inventoried must be the one the runtime consumes, or the rule passes vacuously.  What is
+    # counted is the *roles* in which the acquisition helper (helper-inlined view) uses it, by dependence -- not read sites: reading
+    # the field once into a local that serves both roles, or twice, is the same program.
+    roles = _limit_reader_roles(helper, cfg, _param_named(helper, "workflow", 1))
+    chk.floor("C30.R3", f"roles in which `{HELPER}` consumes `{LIMIT_FIELD}` of its workflow (decides whether a semaphore is acquired; sizes the semaphore it creates)",
+              len([r for r, sites in roles.items() if sites]), 2)
+    chk.extra["limit_reader_roles"] = {r: sorted({" ".join(ast.unparse(x).split())[:80] for x in sites}) for r, sites in roles.items()}
 
 
 # ================================================================================== helpers
@@ -201,6 +214,40 @@ def _param_named(fn: ast.AST, name: str, pos: int | None) -> str:
     if pos is not None and len(names) > pos:
         return names[pos]
     raise AnchorError(f"`{qualname_of(fn)}` has no parameter `{name}`")
+
+
+def _limit_reader_roles(helper: ast.AST, cfg: CFG, wf_param: str) -> dict[str, list[ast.AST]]:
+    """Where the configured limit is consumed in the acquisition helper, by role:
+    `decides` -- a branch test that every normal path to an acquisition site (`async with <sem>` / `<sem>.acquire()`) traverses
+                 and whose value may depend on `<workflow>._num_concurrent_runs` (the unbounded / bounded split);
+    `sizes`   -- a `Semaphore(...)` construction whose size argument may depend on it.
+    Dependence is the flow-insensitive slice through the helper's locals, so a local holding the limit, a local holding the
+    test result, early return vs if/else and a folded-back extracted helper all give the same answer."""
+    if _rebound(helper, wf_param):
+        raise AnchorError(f"C30.R3: `{qualname_of(helper)}` rebinds its workflow parameter `{wf_param}`")
+
+    def reads_limit(e: ast.AST) -> bool:
+        return any(isinstance(a, ast.Attribute) and a.attr == LIMIT_FIELD and isinstance(a.ctx, ast.Load) and isinstance(a.value, ast.Name) and a.value.id == wf_param
+                   for x in dep_slice(helper, e).exprs for a in ast.walk(x))
+
+    roles: dict[str, list[ast.AST]] = {"decides": [], "sizes": []}
+    for n in cfg.nodes:
+        if n.ast is None:
+            continue
+        acquires = (n.kind == "with" and isinstance(n.ast, (ast.AsyncWith, ast.With))) or any(
+            isinstance(x, ast.Call) and isinstance(x.func, ast.Attribute) and x.func.attr == "acquire" for x in exprs_in_node(n))
+        if not acquires:
+            continue
+        for t, _label in cfg.guards(n, labels_excluded=("exc", "cancel")):
+            test = getattr(t.ast, "test", None)
+            if t.kind == "test" and test is not None and reads_limit(test) and all(test is not y for y in roles["decides"]):
+                roles["decides"].append(test)
+    for c in walk_shallow(helper):
+        if isinstance(c, ast.Call) and (last(call_name(c)) or "").endswith("Semaphore"):
+            size = c.args[0] if c.args and not isinstance(c.args[0], ast.Starred) else next((k.value for k in c.keywords if k.arg == "value"), None)
+            if size is not None and reads_limit(size):
+                roles["sizes"].append(c)
+    return roles
 
 
 def _rebound(fn: ast.AST, name: str) -> bool:
@@ -576,6 +623,22 @@ def _simulate(chk, repo, m, helper: ast.AST) -> None:
 # ================================================================================== twins
 _B = "packages/llama-index-workflows/src/workflows/plugins/basic.py"
 _W = "packages/llama-index-workflows/src/workflows/workflow.py"
+def _extracted_form(key: str = "id(workflow)", extra: str = "") -> tuple[str, str]:
+    """The acquisition helper rewritten the way an extract-method refactoring leaves it.  The helper's name is assembled
+    here so that it is *not* a word of this module: the inliner then treats it like any private helper a refactoring
+    introduces and folds it back before the rules run."""
+    name = "_".join(["", "sem", "for", "instance"])
+    old = ("        if workflow._num_concurrent_runs is None:\n            yield\n        else:\n            # Key by instance id so each workflow instance has independent concurrency limits\n"
+           "            workflow_id = id(workflow)\n            if workflow_id in self._max_concurrent_runs:\n                sem = self._max_concurrent_runs[workflow_id]\n            else:\n"
+           "                sem = asyncio.Semaphore(workflow._num_concurrent_runs)\n                self._max_concurrent_runs[workflow_id] = sem\n            async with sem:\n                yield\n")
+    new = ("        limit = workflow._num_concurrent_runs\n        if limit is None:\n            yield\n            return\n"
+           f"        sem = self.{name}(workflow, limit)\n        async with sem:\n            yield\n\n"
+           f"    def {name}(self, workflow: Workflow, limit: int) -> asyncio.Semaphore:\n{extra}        workflow_id = {key}\n"
+           "        if workflow_id in self._max_concurrent_runs:\n            return self._max_concurrent_runs[workflow_id]\n"
+           "        sem = asyncio.Semaphore(limit)\n        self._max_concurrent_runs[workflow_id] = sem\n        return sem\n")
+    return old, new
+
+
 TWINS = [
     # ---- R1
     Twin("run function called after the slot was released", _B,
@@ -612,7 +675,13 @@ TWINS = [
     Twin("limit altered on the way in", _W, "self._num_concurrent_runs = num_concurrent_runs", "self._num_concurrent_runs = num_concurrent_runs and num_concurrent_runs * 2", "C30.R3"),
     Twin("second writer resets the limit", _B, "    def register(self, workflow: Workflow) -> RegisteredWorkflow:\n        return RegisteredWorkflow(",
          "    def register(self, workflow: Workflow) -> RegisteredWorkflow:\n        workflow._num_concurrent_runs = None\n        return RegisteredWorkflow(", "C30.R3"),
+    Twin("extracted lookup-or-create helper (folded back) also clamps the stored limit", _B, *_extracted_form(extra="        workflow._num_concurrent_runs = max(limit, 1)\n"), "C30.R3"),
+    Twin("extracted lookup-or-create helper (folded back) keyed by the workflow name", _B, *_extracted_form(key="workflow.workflow_name"), "C30.R2"),
     # ---- benign
+    Twin("benign: limit read once into a local that both decides and sizes; early `yield; return`; lookup-or-create extracted into a private helper (folded back)", _B,
+         *_extracted_form(), None),
+    Twin("benign: the unbounded test held in a local", _B, "        if workflow._num_concurrent_runs is None:\n            yield\n",
+         "        unbounded = workflow._num_concurrent_runs is None\n        if unbounded:\n            yield\n", None),
     Twin("benign: get() lookup", _B,
          "            if workflow_id in self._max_concurrent_runs:\n                sem = self._max_concurrent_runs[workflow_id]\n            else:\n                sem = asyncio.Semaphore(workflow._num_concurrent_runs)\n                self._max_concurrent_runs[workflow_id] = sem",
          "            sem = self._max_concurrent_runs.get(workflow_id)\n            if sem is None:\n                sem = asyncio.Semaphore(workflow._num_concurrent_runs)\n                self._max_concurrent_runs[workflow_id] = sem", None),
